@@ -156,7 +156,7 @@ theorem op_codes_follow_declaration_order (sy : Symbols) (tf fuel : Nat) (i : If
 /-- non-vacuity: a two-level hierarchy with interleaved members numbers `[0, 1, 2]` -/
 example :
     let base : Iface := ⟨1, none, [.func ⟨10, [], false, false⟩, .error 20, .func ⟨11, [], false, false⟩]⟩
-    let leaf : Iface := ⟨2, some 1, [.const ⟨30, .u8, 0⟩, .func ⟨12, [], false, false⟩]⟩
+    let leaf : Iface := ⟨2, some 1, [.const { name := 30, ty := .u8, value := 0 }, .func ⟨12, [], false, false⟩]⟩
     let sy : Symbols := { ifaces := [(base, 0), (leaf, 0)] }
     (match numberIface sy 3 3 leaf errorCodeStart 0 with
      | .ok (mi, _, _) => (flatIds mi, mi.flatFuncs.map (fun of => (of.1, of.2.name)))
